@@ -134,7 +134,7 @@ func serverConfig(k *hsKind) *tls.Config {
 type hsCase struct {
 	Seam string `json:"seam"` // "tls.Server" (B1) | "proxyserver-h1" | "proxyserver-h2" (B2)
 	Kind string `json:"client"`
-	Cuts []int  `json:"cuts"`          // cut positions in the first flight; nil with Bytewise
+	Cuts []int  `json:"cuts"`           // cut positions in the first flight; nil with Bytewise
 	Byte bool   `json:"byte_at_a_time"` // one byte per delivery
 	Ver  uint16 `json:"rewrite_record_version,omitempty"`
 }
